@@ -41,7 +41,7 @@ CHECKS = [
      "All ordered pairs of a 736-value JSON universe (depth <= 2) through const / enum / uniqueItems in every draft, and all "
      "length-3 arrays over a 40-value mixed universe, agree with exact JSON equality and with each other.",
      "type-tagged canonical form with Fractions as the model; strings limited to four atoms", "5 C08"),
-    ("C09", "exploration", "exhaustive enumeration of ordered number pairs vs. exact rational arithmetic",
+    ("C09", "exploration", "exhaustive enumeration of ordered number pairs (incl. the 1024-bit band around the float rounding midpoint) x every numeric keyword form vs. exact rational arithmetic",
      "All ordered pairs (instance, bound/divisor) of a 137-number universe spanning the whole float exponent range and "
      "integers up to thousands of digits, for every numeric keyword form of every draft: bounds always equal the Fraction "
      "verdict; multipleOf equals it on the exact sub-domain the property defines; nothing raises.",
@@ -51,18 +51,18 @@ CHECKS = [
      "bundled metaschema file, and raises only SchemaError, over every hostile {keyword: value} at every subschema position "
      "(55k candidates per draft in the quick tier); each metaschema is accepted by its own class.",
      "trusts mc/ref/spec.py; format inert", "5 C11"),
-    ("C02", "exploration", "exhaustive enumeration of reference placements/names/base arrangements vs. a designation model + inlining (metamorphic: inlined schema validated by the implementation)",
+    ("C02", "exploration", "exhaustive enumeration of reference placements/names/base arrangements x 8 document environments (store, handler, failing-once handler, late store, decoy resolvers sharing the store object, legacy resolver interface, resolver with another base) vs. a designation model + inlining (metamorphic: inlined schema validated by the implementation)",
      "For every enumerated placement of references (every applicator position incl. abandoning ones, hostile names, 14 "
      "spellings / target locations, ids on the evaluation path, recursion, store- and handler-served documents) the schema "
      "with references gives the same verdict and the same (instance path, keyword) multiset as the reference-free schema "
      "obtained by writing the designated schema in place of each reference.",
      "urljoin/urldefrag trusted as RFC 3986; own RFC 6901 decoder; issue-371 targets excluded as the property states; one open known finding (id next to $ref)", "5 C02"),
-    ("C10", "exploration", "exhaustive enumeration of foreign-keyword insertions; metamorphic before/after comparison",
+    ("C10", "exploration", "exhaustive enumeration of foreign-keyword insertions (every position incl. empty subschemas, reference targets and store documents, many at once, through the library and the command line) after exhaustive pre-histories by other drafts' classes and class-table edits; metamorphic before/after comparison",
      "Inserting any name outside the draft's vocabulary (from an independent vocabulary table), with hostile and "
      "would-fail-if-active values, at every subschema position of every base schema leaves the error identities unchanged; "
      "likewise any keyword next to a $ref and the other draft's id spelling above a relative reference.",
      "vocabulary table written from the specifications; messages that embed the edited subschema are not compared; one open known finding (own id next to $ref)", "5 C10"),
-    ("C07", "model_checking", "explicit-state exploration of operation histories on one live validator (replay-from-scratch), deviation-bounded handler faults, differential against a fresh validator",
+    ("C07", "model_checking", "explicit-state exploration of operation histories on one live validator (replay-from-scratch, 4 driver schemas), deviation-bounded handler faults, differential against a fresh validator; exhaustive purity sweep (schema / store document / instance before vs. after) over the grammar",
      "Every operation history on one validator object (is_valid / exhaust / validate / take-k-then-close / take-k-then-drop / "
      "resolve / resolving / in_scope / handler toggles) over three driver schemas per draft: un-merged to depth 3 (4 "
      "thorough), merged by canonical state to depth 5 (7), with at most 2 handler-failure deviations; each transition "
@@ -79,26 +79,26 @@ CHECKS = [
      "(600k strings, 6.8M observations): ipv4 / ipv6 / date / email agree with hand-written recognisers, regex agrees with "
      "re.compile, and for every registered format conforms() returns a bool and check() raises only FormatError.",
      "recognisers in mc/ref/formats.py written from the RFCs (own selftest); idn-hostname and draft-3 time never-raises only; one open known finding (year 0000)", "5 C13"),
-    ("C15", "model_checking", "explicit-state exploration of resolution/validation histories x cache configurations x handler faults vs. a fetch-count/availability model (result and exact handler call log)",
+    ("C15", "model_checking", "explicit-state exploration of resolution/validation histories x cache configurations x handler faults vs. a fetch-count/availability model (result and exact handler call log); exhaustive base-URI x reference x subschema-id product under 10 cache configurations (all must agree)",
      "Every history (un-merged depth 3/4, merged by canonical state to 4/6, <= 2 handler-failure deviations) of validations "
      "and direct resolutions on one resolver, for each of {cache_remote on, off} x {default lru, pass-through, lru_cache(1)}: "
      "the result and the exact handler call log equal the model's prediction; at most one successful fetch per document "
      "with caching on; the store never grows with caching off; failures surface as RefResolutionError only; metaschema and "
      "store documents never cause a retrieval; urlopen/requests are never touched.",
      "evaluation order of references inside a validation is taken from a traced all-available run; model mirrors the documented cache semantics", "5 C15"),
-    ("C16", "model_checking", "explicit-state exploration of derivation histories; every live object re-probed against a persistent-map model",
+    ("C16", "model_checking", "explicit-state exploration of derivation histories, each in a pristine forked process (order of first use is part of the history); every live object re-probed against a persistent-map model / the reference evaluator applied to the edited metaschema",
      "All sequences (depth 3 / 4) of 24 derivation operations on type checkers, validator classes and format checkers; after "
      "each history every object in existence (14 initial + derived) shows exactly the probe vector predicted at its "
      "creation (extend(cls) == cls incl. id lookup; an overridden/added keyword changes only its own probes; class-wide "
      "format registration affects only later FormatChecker objects); global registries restored and re-verified.",
      "probe battery is finite (is_type 9x12, 10 validation probes, conforms 10x6)", "5 C16"),
-    ("C18", "model_checking", "all interleavings of iterator steps (stateless enumeration) + preemption-bounded DFS over real threads under a sys.settrace baton scheduler",
+    ("C18", "model_checking", "all interleavings of iterator steps (stateless enumeration; validators colliding on every cache key, python-equal twins, shared schema / instance objects, related classes, metaschema-id copies) + preemption-bounded DFS over real threads under a sys.settrace baton scheduler with stall detection, incl. cold-start schedules on a freshly imported package",
      "Validators colliding on base URI, reference strings, remote URLs (store- and handler-served), regexes and format "
      "names: every interleaving of next()/close() steps of 2-3 iterators, and every schedule with <= 2 preemptions of 2-3 "
      "validating threads (call granularity; line granularity bound 1), gives each consumer exactly the errors of the "
      "reference-free equivalent schema and leaves its resolver's scope untouched.",
      "preemption at Python call/line boundaries only; GIL-atomic container operations assumed", "5 C18"),
-    ("C14", "exploration", "exhaustive enumeration of documents x every path x both fragment spellings (positive) and of every non-addressing token per container (negative) vs. an independent RFC 6901/3986 codec",
+    ("C14", "exploration", "exhaustive enumeration of documents x every path x both fragment spellings (positive) and of every non-addressing token per container (negative) vs. an independent RFC 6901/3986 codec; whole documents of every JSON type through every route; all ordered pairs of resolutions on one resolver",
      "For every document built from a 23-key hostile alphabet (nesting depth <= 2-3, arrays of length 0-3, distinct marker "
      "leaves) and EVERY path into it, in the minimal and the fully percent-encoded spelling, resolve_fragment returns the "
      "identical object and a validator with that $ref behaves as the marker schema; every token that addresses nothing "
@@ -111,13 +111,13 @@ CHECKS = [
      "path says, membership/iteration/total_errors/len agree with a path trie, and indexing an existing error-free element "
      "of a fresh tree gives an empty tree.",
      "cap on permutations above 5 errors reported in the evidence; one open known finding (node instance after a propertyNames error)", "5 C17"),
-    ("C19", "model_checking", "exhaustive enumeration of CLI configurations (instance lists as folded histories) vs. a fold model; real subprocesses for the exit status",
+    ("C19", "model_checking", "exhaustive enumeration of CLI configurations (instance lists as folded histories; schema / instance / stdin text shapes, file-name styles, error formats, validator and base-uri options) vs. a fold model; real subprocesses for a covering array",
      "Every combination of schema-file state x instance lists of length 0-3 (stdin for length 0) x output mode x error format "
      "x --validator x --base-uri (22.7k configurations through cli.run, 323 real `python -m jsonschema` processes as a "
      "strength-2 covering array) matches a fold over the list using the library's own iter_errors: exit status, stderr "
      "markers in order, one diagnostic per bad file, stdout success headers, every instance processed.",
      "wording of built-in templates is not pinned (markers and counts only); subprocess half is a covering array in the quick tier", "5 C19"),
-    ("C20", "model_checking", "exhaustive enumeration of $schema spellings x bodies x entry points vs. a dict model; explicit-state exploration of registration histories",
+    ("C20", "model_checking", "exhaustive enumeration of $schema spellings x bodies x entry points vs. a dict model; explicit-state exploration of registration / lookup histories (every route to validates(), re-registration of ids), each in a pristine process",
      "55 $schema spellings x 21 draft-discriminating bodies x 11 instances through validator_for / validate / cli.run follow the "
      "documented selection rule (registered id with or without '#', absent or boolean -> default, unknown -> latest + "
      "DeprecationWarning; explicit class wins; validate == best_match of the selected class); all registration histories to "
